@@ -29,7 +29,7 @@ def names_of(e) -> list[str]:
 
 def expr_stream(rng: random.Random, tier: str, n_random: int, depth_q: int = 4, depth_t: int = 6,
                 share: float = 0.0, kinds=gen.ALL, names=("x", "y", "z"), rules: bool = True,
-                rule_rounds: int = 2):
+                rule_rounds: int = 2, pairs: bool = True):
     """(origin, expression) pairs: rule-directed patterns (every rule, every round), then random
     type-directed trees of mixed fragments and depths"""
     out = []
@@ -40,6 +40,11 @@ def expr_stream(rng: random.Random, tier: str, n_random: int, depth_q: int = 4, 
                 out.append(("rule:" + name, e))
                 if rnd % 2 == 1:
                     out.append(("rule+:" + name, gen.wrap_random(g, e, 1 + rnd % 2)))
+    if pairs and set(kinds) >= set(gen.ALL):
+        for rnd in range(1 if tier == "quick" else 4):
+            g = gen.Gen(rng, names=names[: 1 + rnd % len(names)], kinds=kinds)
+            out += gen.pair_patterns(g)
+            out += gen.param_pairs(g)
     maxd = depth_q if tier == "quick" else depth_t
     frags = [gen.RATIONAL, gen.RATIONAL + gen.ROOTS, kinds, kinds]
     for i in range(n_random):
